@@ -274,9 +274,16 @@ def run(ctx):
     accessor(ctx, alphabet)
     long_family(ctx)
     ctx.pmap(_storage_task, ["long", "short"])
+    from . import spell_common
+    spell_common.run(ctx, "C20")
+
 
 
 def replay(sub, case, p):
+    if case.get("kind") == "spelling":
+        from . import spell_common
+        spell_common.run(p, "C20")
+        return
     if case["kind"] == "ti":
         check_batch(np.asarray([case["x"]], dtype=np.int64), tuple(case["template"]), np.asarray(case["labels"]), p, sub, tmpl_dtype=case.get("template_dtype", "float64"))
     else:
